@@ -52,6 +52,21 @@ Theorem C15_any_style :
 Proof. exact any_style. Qed.
 Print Assumptions C15_any_style.
 
+(* inheritance from a base class: the base class executes one part of the body, the subclass the rest
+   (from the inherited states); for any split and any calling styles the machine is the one of the
+   single class whose body is the two parts in sequence - same transitions, same order, per state *)
+Theorem C15_base_plus_subclass_style :
+  forall b1 b2, eval_body (b1 ++ b2) = eval_body b1 ++ eval_body b2.
+Proof. exact base_plus_subclass_style. Qed.
+Print Assumptions C15_base_plus_subclass_style.
+
+Theorem C15_base_plus_subclass_per_state :
+  forall b1 b2 s,
+    per_state (eval_body (b1 ++ b2)) s = per_state (eval_body b1) s ++ per_state (eval_body b2) s.
+Proof. exact split_per_state. Qed.
+Print Assumptions C15_base_plus_subclass_per_state.
+
+
 Definition ex_m : amachine :=
   [ {| a_src := 0; a_tgt := 1; a_events := [0]; a_kw := 7 |}; {| a_src := 0; a_tgt := 2; a_events := [0]; a_kw := 7 |};
     {| a_src := 1; a_tgt := 1; a_events := [1]; a_kw := 0 |}; {| a_src := 2; a_tgt := 0; a_events := [0; 1]; a_kw := 0 |} ].
